@@ -111,13 +111,13 @@ def write_cfg(path, spec="Spec", constants=None, invariants=(), properties=(), v
 STATS_RE = re.compile(r"(\d+) states generated, (\d+) distinct states found")
 
 
-def run_tlc(d, module, workers=8, timeout=1800, extra=(), simulate=None):
+def run_tlc(d, module, workers=8, timeout=1800, extra=(), simulate=None, heap="12g"):
     """Runs TLC in directory d on module (cfg = module.cfg). Returns (generated, distinct, output)."""
     cmd = ["tlc", "-workers", str(workers), "-metadir", os.path.join(d, "meta-" + module)]
     if simulate:
         cmd += ["-simulate", simulate]
     cmd += list(extra) + [module + ".tla"]
-    p = run(cmd, cwd=d, env=tlc_env(), timeout=timeout, check=False)
+    p = run(cmd, cwd=d, env=tlc_env("-Xmx" + heap), timeout=timeout, check=False)
     out = p.stdout or ""
     shutil.rmtree(os.path.join(d, "meta-" + module), ignore_errors=True)
     m = None
@@ -210,7 +210,7 @@ def validate_shard(args):
     mis = os.path.join(sd, "mis.ndjson")
     write_cfg(os.path.join(sd, module + ".cfg"), constants={"TraceFile": shard, "MisFile": mis})
     try:
-        gen, dist, out = run_tlc(sd, module, workers=1, timeout=timeout)
+        gen, dist, out = run_tlc(sd, module, workers=1, timeout=timeout, heap="3g")
     except Infra as e:
         return {"error": str(e)}
     recs = []
